@@ -33,7 +33,7 @@ SPEC = {
              return_text='np.fft.rfft(s, axis=-1) * scale'),
         # csd_to_signal: irfft(csd / scale), scale from the number of bins
         dict(file=UTIL, qual='csd_to_signal', coq='csd_to_signal_scale', params=['nbins'], mode='slice', target='scale',
-             subst={'len(csd)': 'nbins'}, ignore_params=['csd'],
+             subst={'np.shape(csd)[-1]': 'nbins'}, ignore_params=['csd'],
              return_text='np.fft.irfft(csd / scale, axis=-1)'),
         # tone_conv: mean over the samples of r = 2 s exp(-j 2 pi t f), t = i / fs; no detrending, no window
         dict(file=UTIL, qual='tone_conv', coq='tone_conv_re', params=['s', 'i', 'fs', 'frequency'], mode='slice',
@@ -49,7 +49,7 @@ SPEC = {
              subst={'np.abs(r)': 'absr'}, ignore_params=['s', 'fs', 'frequency', 'window', 'detrend']),
         # rms (no detrending): square root of the mean square;  rms_rfft: square root of the summed squared magnitudes
         dict(file=UTIL, qual='rms', coq='rms_of_meansq', params=['meansq'], mode='slice',
-             subst={'np.mean(s ** 2, axis=axis)': 'meansq'}, ignore_params=['s', 'detrend', 'axis'],
+             subst={'np.mean(s ** 2.0, axis=axis)': 'meansq'}, ignore_params=['s', 'detrend', 'axis'],
              assume={'detrend': False}),
         dict(file=UTIL, qual='rms_rfft', coq='rms_rfft_of_sumsq', params=['sumsq'], mode='slice',
              subst={'np.sum(np.abs(x) ** 2, axis=axis)': 'sumsq'}, ignore_params=['x']),
